@@ -20,7 +20,8 @@ RULE = ("E1+E3: ('sig', curve, hash, encoding, canonise) = full product of 17 cu
         "encoded signature (all bits on 5 curves quick / 17 thorough, one bit per byte on the rest) must raise BadSignatureError; ('range', curve, "
         "encoding, r-class, s-class) r, s in {0, n, n+1, 2^k, valid} must be rejected; ('malformed', curve, encoding, i) truncated / extended "
         "encodings raise the documented errors. Distinct = case tuples."
-        " ('forge-infinity', curve, enc, s): in-range signatures built with the private key so that the verification point is the point at infinity must be rejected with BadSignatureError; ('canon-edge', curve, enc, delta): nonce and digest chosen so that s = (n-1)/2 + delta - the canonising encoders must return s <= (n-1)/2.")
+        " ('forge-infinity', curve, enc, s): in-range signatures built with the private key so that the verification point is the point at infinity must be rejected with BadSignatureError; ('canon-edge', curve, enc, delta): nonce and digest chosen so that s = (n-1)/2 + delta - the canonising encoders must return s <= (n-1)/2."
+        " Added to 'range': r / s out of range but congruent modulo n to the valid values (g+n, g+2n, 2n-g).")
 ASSUMPTIONS = [
     "OpenSSL 3 CLI is the interoperability oracle (non-DER encodings are converted with the reference DER writer)",
     "documented errors: BadSignatureError from verify; MalformedSignature / UnexpectedDER from the decoders",
@@ -121,6 +122,9 @@ def cases(ctx):
                 for sc in ("0", "n", "n+1", "2^k", "ok"):
                     if (rc, sc) != ("ok", "ok"):
                         yield ("range", ci, enc, rc, sc)
+            # out-of-range values CONGRUENT to the valid ones modulo n (a verifier that reduces before its range check accepts them)
+            for rc, sc in (("ok", "g+n"), ("g+n", "ok"), ("ok", "g+2n"), ("g+n", "g+n"), ("ok", "n-g+n")):
+                yield ("range", ci, enc, rc, sc)
             for i in range(8 if enc != "der" else 16):
                 yield ("malformed", ci, enc, i)
             # in-range signatures constructed (with the private key) so that the verification point u1*G + u2*Q is the point at
@@ -363,7 +367,8 @@ def run_case(ctx, case):
         good = sk.sign_deterministic(MSG, hashfunc=hf, sigencode=encf)
         gr, gs = rs_of(good, enc, n)
         ln = (n.bit_length() + 7) // 8
-        val = lambda c, g: {"0": 0, "n": n, "n+1": n + 1, "2^k": 1 << (8 * ln - 1) if enc != "der" else 1 << (8 * ln + 3), "ok": g}[c]
+        val = lambda c, g: {"0": 0, "n": n, "n+1": n + 1, "2^k": 1 << (8 * ln - 1) if enc != "der" else 1 << (8 * ln + 3), "ok": g,
+                            "g+n": g + n, "g+2n": g + 2 * n, "n-g+n": 2 * n - g}[c]
         r, s = val(rc, gr), val(sc, gs)
         if enc != "der" and (r >= 1 << (8 * ln) or s >= 1 << (8 * ln)):
             return Outcome("not-encodable", False)
